@@ -26,7 +26,7 @@ Definition view_st (s : state) : view := mkView (supply s) (bal s) (allowance s)
 (* gate fields and ledger untouched *)
 Definition same_gates (s s' : state) : Prop :=
   now s' = now s /\ paused s' = paused s /\ allowed s' = allowed s /\ blocked s' = blocked s /\
-  cap s' = cap s /\ migrating s' = migrating s /\ mdata s' = mdata s.
+  cap s' = cap s /\ migrating s' = migrating s /\ mdata s' = mdata s /\ mgr s' = mgr s.
 Lemma same_gates_refl s : same_gates s s.
 Proof. repeat split. Qed.
 
@@ -254,7 +254,7 @@ Proof.
     + intros x. cbn [exp_bal view_st v_bal set_bal bal]. rewrite Hb. unfold updZ. reflexivity.
     + intros x y. rewrite (allowance_same (spent s f sp a)) by reflexivity.
       rewrite spent_allowance by exact ES. reflexivity.
-    + destruct Hg as (g1 & g2 & g3 & g4 & g5 & g6 & g7). repeat split; cbn; assumption.
+    + destruct Hg as (g1 & g2 & g3 & g4 & g5 & g6 & g7 & g8). repeat split; cbn; assumption.
   - eapply inv_same_alw; [| |apply (spent_inv c s f sp a HI)]; reflexivity.
 Qed.
 
@@ -280,14 +280,15 @@ Proof.
     + intros x. cbn [exp_bal view_st v_bal set_bal set_supply bal]. rewrite Hb. unfold updZ. reflexivity.
     + intros x y. rewrite (allowance_same (spent s f sp a)) by reflexivity.
       rewrite spent_allowance by exact ES. reflexivity.
-    + destruct Hg as (g1 & g2 & g3 & g4 & g5 & g6 & g7). repeat split; cbn; assumption.
+    + destruct Hg as (g1 & g2 & g3 & g4 & g5 & g6 & g7 & g8). repeat split; cbn; assumption.
   - eapply inv_same_alw; [| |apply (spent_inv c s f sp a HI)]; reflexivity.
 Qed.
 
 (* ------------------------------------------------------------------ *)
 (* every entry point of every contract meets the specification          *)
 Definition Rel (c : cfg) (h : hist) (s : state) : Prop :=
-  h_now h = now s /\ h_paused h = paused s /\ (forall x, h_listed h x = listed c s x) /\ h_armed h = migrating s.
+  h_now h = now s /\ h_paused h = paused s /\ (forall x, h_listed h x = listed c s x) /\ h_armed h = migrating s /\
+  (forall x, h_mgr h x = mgr s x).
 
 Definition effects (s : state) (o : op) (s' : state) : Prop :=
   supply s' = exp_supply (view_st s) o /\
@@ -322,8 +323,8 @@ Proof. destruct a, b; reflexivity. Qed.
 
 Lemma rel_same_gates c h s s' : Rel c h s -> same_gates s s' -> Rel c h s'.
 Proof.
-  intros (Rn & Rp & Rl & Ra) (g1 & g2 & g3 & g4 & g5 & g6 & g7).
-  unfold Rel, listed. rewrite g1, g2, g3, g4, g6. repeat split; assumption.
+  intros (Rn & Rp & Rl & Ra & Rm) (g1 & g2 & g3 & g4 & g5 & g6 & g7 & g8).
+  unfold Rel, listed. rewrite g1, g2, g3, g4, g6, g8. repeat split; assumption.
 Qed.
 
 Lemma gated_token c h s au o (g : bool) (r : res state) :
@@ -343,7 +344,7 @@ Proof.
   rewrite HE, Hb. split; [reflexivity|]. cbn [fst].
   assert (Hh : hist_upd h o = h) by (destruct o; cbn in Ht; try discriminate; reflexivity).
   rewrite Hh. split; [|split; [eapply rel_same_gates; eauto|exact HI]].
-  destruct e4 as (g1 & g2 & g3 & g4 & g5 & g6 & g7).
+  destruct e4 as (g1 & g2 & g3 & g4 & g5 & g6 & g7 & g8).
   unfold effects. split; [exact e1|]. split; [exact e2|]. split.
   - intros x y. specialize (e3 x y). destruct o; cbn in Ht; try discriminate; exact e3.
   - split; destruct o; cbn in Ht; try discriminate; cbn [exp_cap exp_data view_st v_cap v_data]; assumption.
@@ -367,8 +368,8 @@ Lemma ungated_token c h s au o (r : res state) :
 Proof. intros. change r with (if true then r else Fail). eapply gated_token; eauto. Qed.
 
 Ltac side_gate K HR :=
-  let Rn := fresh "Rn" in let Rp := fresh "Rp" in let Rl := fresh "Rl" in let Ra := fresh "Ra" in
-  destruct HR as (Rn & Rp & Rl & Ra);
+  let Rn := fresh "Rn" in let Rp := fresh "Rp" in let Rl := fresh "Rl" in let Ra := fresh "Ra" in let Rm := fresh "Rm" in
+  destruct HR as (Rn & Rp & Rl & Ra & Rm);
   unfold gate_open; rewrite K;
   cbn [has_entry kind_eqb pausable_op vetted forallb is_mint implies andb negb orb view_st v_cap v_supply];
   rewrite ?Rp, ?Rl; unfold listed; rewrite ?K; cbn [is_block];
@@ -400,15 +401,19 @@ Ltac tok K HR HI base :=
 
 Ltac gate_open_case K HR :=
   open_exec K; unfold step_spec, expected_ok; cbn [fst snd]; rewrite K; cbn [kind_eqb andb orb];
-  destruct HR as (Rn & Rp & Rl & Ra).
+  destruct HR as (Rn & Rp & Rl & Ra & Rm).
 
 (* after a gate operation: effects trivial, Rel follows the history update, Inv unchanged *)
 Ltac gate_post HI Rn Rp Rl Ra :=
   cbn [fst];
   split; [unfold effects; cbn; repeat split; intros; reflexivity|];
   split; [|first [exact HI | (eapply inv_same_alw; [| |exact HI]; reflexivity)]];
-  unfold Rel; cbn [hist_upd h_now h_paused h_listed h_armed];
+  unfold Rel; cbn [hist_upd h_now h_paused h_listed h_armed h_mgr];
   repeat split; cbn; try assumption; try reflexivity; try congruence.
+
+Ltac mgr_post Rm EM :=
+  try (intros x; specialize (Rm x); cbn [set_mgr mgr]; unfold updB;
+       destruct (N.eqb x _) eqn:Ex; [apply N.eqb_eq in Ex; subst x; try rewrite EM; auto | exact Rm]).
 
 Ltac list_post K Rl EA :=
   try (intros x; specialize (Rl x); unfold listed in *; rewrite K in *; cbn [is_block] in *;
@@ -423,7 +428,7 @@ Proof.
     unfold exec, exec_gen. cbn [fst snd]. rewrite bind_guard.
     unfold step_spec, expected_ok. cbn [fst snd].
     destruct (n <? 0) eqn:En; cbn [negb]; [reflexivity|].
-    split; [reflexivity|]. destruct HI as [H0 HI]. destruct HR as (Rn & Rp & Rl & Ra). b2p.
+    split; [reflexivity|]. destruct HI as [H0 HI]. destruct HR as (Rn & Rp & Rl & Ra & Rm). b2p.
     split; [|split].
     + unfold effects. repeat split.
       intros x y. rewrite !allowance_unfold. cbn [set_now alw now].
@@ -457,7 +462,7 @@ Proof.
       split; [reflexivity|]. gate_post HI Rn Rp Rl Ra.
   - (* AllowUser *)
     destruct (knd c) eqn:K; try (no_entry K); gate_open_case K HR.
-    + unfold only_manager, require_auth. rewrite ?bind_guard2, ?bind_guard, ?if_and. rewrite orb_false_r.
+    + unfold only_manager, require_auth. rewrite ?bind_guard2, ?bind_guard, ?if_and. rewrite orb_false_r, (Rm operator).
       match goal with |- match (if ?G then _ else _) with _ => _ end => destruct G end; [|reflexivity].
       split; [reflexivity|]. unfold allow_user. destruct (allowed s user) eqn:EA; gate_post HI Rn Rp Rl Ra;
         list_post K Rl EA.
@@ -465,7 +470,7 @@ Proof.
         list_post K Rl EA.
   - (* DisallowUser *)
     destruct (knd c) eqn:K; try (no_entry K); gate_open_case K HR.
-    + unfold only_manager, require_auth. rewrite ?bind_guard2, ?bind_guard, ?if_and. rewrite orb_false_r.
+    + unfold only_manager, require_auth. rewrite ?bind_guard2, ?bind_guard, ?if_and. rewrite orb_false_r, (Rm operator).
       match goal with |- match (if ?G then _ else _) with _ => _ end => destruct G end; [|reflexivity].
       split; [reflexivity|]. unfold disallow_user. destruct (allowed s user) eqn:EA; gate_post HI Rn Rp Rl Ra;
         list_post K Rl EA.
@@ -473,7 +478,7 @@ Proof.
         list_post K Rl EA.
   - (* BlockUser *)
     destruct (knd c) eqn:K; try (no_entry K); gate_open_case K HR.
-    + unfold only_manager, require_auth. rewrite ?bind_guard2, ?bind_guard, ?if_and. rewrite orb_false_r.
+    + unfold only_manager, require_auth. rewrite ?bind_guard2, ?bind_guard, ?if_and. rewrite orb_false_r, (Rm operator).
       match goal with |- match (if ?G then _ else _) with _ => _ end => destruct G end; [|reflexivity].
       split; [reflexivity|]. unfold block_user. destruct (blocked s user) eqn:EA; gate_post HI Rn Rp Rl Ra;
         list_post K Rl EA.
@@ -481,7 +486,7 @@ Proof.
         list_post K Rl EA.
   - (* UnblockUser *)
     destruct (knd c) eqn:K; try (no_entry K); gate_open_case K HR.
-    + unfold only_manager, require_auth. rewrite ?bind_guard2, ?bind_guard, ?if_and. rewrite orb_false_r.
+    + unfold only_manager, require_auth. rewrite ?bind_guard2, ?bind_guard, ?if_and. rewrite orb_false_r, (Rm operator).
       match goal with |- match (if ?G then _ else _) with _ => _ end => destruct G end; [|reflexivity].
       split; [reflexivity|]. unfold unblock_user. destruct (blocked s user) eqn:EA; gate_post HI Rn Rp Rl Ra;
         list_post K Rl EA.
@@ -524,6 +529,21 @@ Proof.
     unfold when_paused. rewrite ?bind_guard. rewrite Rp.
     destruct (paused s) eqn:EP; [|reflexivity].
     split; [reflexivity|]. gate_post HI Rn Rp Rl Ra.
+  - (* GrantManager *)
+    destruct (knd c) eqn:K; try (no_entry K); gate_open_case K HR;
+      unfold grant_manager, ensure_admin, require_auth; rewrite ?bind_guard, ?if_and;
+      (match goal with |- match (if ?G then _ else _) with _ => _ end => destruct G end; [|reflexivity]);
+      (split; [reflexivity|]); destruct (mgr s account) eqn:EM; gate_post HI Rn Rp Rl Ra; mgr_post Rm EM.
+  - (* RevokeManager *)
+    destruct (knd c) eqn:K; try (no_entry K); gate_open_case K HR;
+      unfold revoke_manager, ensure_admin, require_auth; rewrite ?bind_guard, ?if_and; rewrite (Rm account);
+      (match goal with |- match (if ?G then _ else _) with _ => _ end => destruct G end; [|reflexivity]);
+      (split; [reflexivity|]); gate_post HI Rn Rp Rl Ra; mgr_post Rm Rm.
+  - (* RenounceManager *)
+    destruct (knd c) eqn:K; try (no_entry K); gate_open_case K HR;
+      unfold renounce_manager, require_auth; rewrite ?bind_guard, ?if_and; rewrite (Rm caller);
+      (match goal with |- match (if ?G then _ else _) with _ => _ end => destruct G end; [|reflexivity]);
+      (split; [reflexivity|]); gate_post HI Rn Rp Rl Ra; mgr_post Rm Rm.
 Qed.
 
 (* ------------------------------------------------------------------ *)
@@ -583,9 +603,10 @@ Qed.
 Theorem gates_follow_history c cs : wf_cfg c = true ->
   let h := fst (hist_run c (hist0 c, init c) cs) in
   let s := run c (init c) cs in
-  now s = h_now h /\ paused s = h_paused h /\ (forall x, listed c s x = h_listed h x) /\ migrating s = h_armed h.
+  now s = h_now h /\ paused s = h_paused h /\ (forall x, listed c s x = h_listed h x) /\ migrating s = h_armed h /\
+  (forall x, mgr s x = h_mgr h x).
 Proof.
-  intros Hw. destruct (hist_run_inv c cs _ _ (init_inv c Hw) (init_rel c)) as [(R1 & R2 & R3 & R4) _].
+  intros Hw. destruct (hist_run_inv c cs _ _ (init_inv c Hw) (init_rel c)) as [(R1 & R2 & R3 & R4 & R5) _].
   rewrite hist_run_state in *. cbn zeta. repeat split; intros; symmetry; auto.
 Qed.
 
@@ -596,6 +617,6 @@ Proof.
 Qed.
 
 (* the history that describes a given state *)
-Definition hist_of (c : cfg) (s : state) : hist := mkHist (now s) (paused s) (listed c s) (migrating s).
+Definition hist_of (c : cfg) (s : state) : hist := mkHist (now s) (paused s) (listed c s) (migrating s) (mgr s).
 Lemma rel_hist_of c s : Rel c (hist_of c s) s.
 Proof. repeat split. Qed.
